@@ -54,6 +54,9 @@ class Cond:
         k = self.kind
         if k == "check-value":
             return dict(device="D", vector="V", event_type=CE.ValueUpdate, check=lambda e: str(e.new_value).startswith("M"))
+        if k == "initial-cleared":
+            # like initial-value, but the awaited change is the element being CLEARED (an empty element: the new value is None)
+            return dict(device="D", vector="V", element="e1", event_type=CE.ValueUpdate, initial="init")
         if k == "initial-value":
             return dict(device="D", vector="V", element="e1", event_type=CE.ValueUpdate, initial="init")
         if k == "expect-value":
@@ -82,6 +85,7 @@ class Scenario:
         self.state = {v: "Ok" for v in self.vecs}
         self.count = 0
         self.expect_used = {v: 0 for v in self.vecs}
+        self.cleared: Dict[str, bool] = {}
 
     def messages(self, flags: List[bool]) -> List[Any]:
         out = []
@@ -93,6 +97,13 @@ class Scenario:
                 out.append(set_text("e1", ("M" if m else "N") + str(self.count), st, vec))
             elif cond.kind == "initial-value":
                 out.append(set_text("e1" if m else "e2", ("M" if m else "N") + str(self.count), st, vec))
+            elif cond.kind == "initial-cleared":
+                if m:
+                    cleared = self.cleared.get(vec, False)
+                    self.cleared[vec] = not cleared
+                    out.append(set_text("e1", ("M" + str(self.count)) if cleared else None, st, vec))
+                else:
+                    out.append(set_text("e2", "N" + str(self.count), st, vec))
             elif cond.kind == "expect-value":
                 if m:
                     self.expect_used[vec] += 1
@@ -166,7 +177,7 @@ def run_wait(kinds: List[str], scheds: List[List[dict]], timeouts: List[int], po
 
         async def waiter(i: int):
             kw = conds[i].kwargs()
-            if kinds[i].endswith("-value") or kinds[i].endswith("-state"):
+            if kinds[i].endswith("-value") or kinds[i].endswith("-state") or kinds[i].endswith("-cleared"):
                 vec = vec_of(i)
                 if "vector" in kw:
                     kw["vector"] = vec
@@ -260,7 +271,7 @@ def schedules(r, tier: str):
             yield a, to, p
 
 
-KINDS = ["check-value", "initial-value", "expect-value", "check-state", "expect-state", "initial-state"]
+KINDS = ["check-value", "initial-value", "initial-cleared", "expect-value", "check-state", "expect-state", "initial-state"]
 
 
 def run(prop: str, tier: str) -> int:
